@@ -60,6 +60,23 @@ def record(lentil, tier, seed):
         M, N = rng.randint(1, m), rng.randint(1, n)
         a = nr.integers(1, 9, size=(m, n))
         add({'act': 'pad', 'a': ints(a), 'sh': [M, N], 'out': ints(u.window(a, shape=(M, N)))})
+    # window(slice=) with the slice of the centred crop is that crop - for images and for cubes (depth first), with and without shape=
+    for _ in range(60 if q else 400):
+        k, m, n = rng.randint(1, 3), rng.randint(2, 7), rng.randint(2, 7)
+        M, N = rng.randint(1, m), rng.randint(1, n)
+        r0, c0 = m // 2 - M // 2, n // 2 - N // 2
+        sl = (r0, r0 + M, c0, c0 + N)
+        a = nr.integers(1, 9, size=(m, n))
+        cu = nr.integers(1, 9, size=(k, m, n))
+        for kw in ({'slice': sl}, {'slice': sl, 'shape': (M, N)}):
+            try:
+                add({'act': 'pad', 'a': ints(a), 'sh': [M, N], 'out': ints(u.window(a, **kw))})
+            except Exception as ex:
+                add({'act': 'pad', 'a': ints(a), 'sh': [M, N], 'out': [[type(ex).__name__]]})
+            try:
+                add({'act': 'padcube', 'cu': ints(cu), 'sh': [M, N], 'out': ints(u.window(cu, **kw))})
+            except Exception as ex:
+                add({'act': 'padcube', 'cu': ints(cu), 'sh': [M, N], 'out': [[[type(ex).__name__]]]})
     # ---- subarray -------------------------------------------------------------------------------------
     for _ in range(300 if q else 2500):
         m, n = rng.randint(1, 7), rng.randint(1, 7)
